@@ -11,12 +11,17 @@ import (
 
 var vhNamedIfaces []*types.Named
 var vhNamedStruct *types.Named
+var vhPkgs []*types.Package
+
+// field names: unexported "a" (identity needs the same package), exported "B" (package ignored)
+func vhFieldName(tag string) string { return []string{"a", "B"}[vhPick(tag, 2)] }
 
 func vhNamed() {
 	if vhNamedIfaces != nil {
 		return
 	}
 	pkg := types.NewPackage("p", "p")
+	vhPkgs = []*types.Package{pkg, types.NewPackage("q", "q")}
 	// E0 has no methods; E1 declares a(), E2 declares b(): the same names explicit methods can have
 	for i, n := range []string{"E0", "E1", "E2"} {
 		var ms []*types.Func
@@ -109,7 +114,7 @@ func vhTypeC(tag string, depth int, ctor int) types.Type {
 		fields := make([]*types.Var, nf)
 		tags := make([]string, nf)
 		for i := range fields {
-			fields[i] = types.NewField(0, nil, vhName(tag+" field name"), vhType(tag, depth-1), vhBool(tag+" embedded"))
+			fields[i] = types.NewField(0, vhPkgs[vhPick(tag+" field package", 2)], vhFieldName(tag+" field name"), vhType(tag, depth-1), vhBool(tag+" embedded"))
 			tags[i] = vhName(tag + " field tag")
 		}
 		if nf == 2 {
@@ -238,44 +243,53 @@ func vhMapOf(ctor int) {
 		}
 		return -1
 	}
-	for i, k := range keys {
-		prev := m.Set(k, 10+i)
+	check := func(what string) {
+		vhAssert(m.Len() == len(rk), "Len counts the distinct keys")
+		for _, k := range []types.Type{keys[0], keys[1], q} {
+			j := refFind(k)
+			if j >= 0 {
+				vhAssert(m.At(k) == interface{}(rv[j]), "At finds the value stored under an identical key")
+			} else {
+				vhAssert(m.At(k) == nil, "At of an absent key is nil")
+			}
+		}
+	}
+	set := func(k types.Type, v int) {
+		prev := m.Set(k, v)
 		j := refFind(k)
 		if j >= 0 {
 			vhAssert(prev == interface{}(rv[j]), "Set returns the previous value of an identical key")
-			rv[j] = 10 + i
+			rv[j] = v
 		} else {
 			vhAssert(prev == nil, "Set of a new key returns nil")
 			rk = append(rk, k)
-			rv = append(rv, 10+i)
-		}
-		vhAssert(m.Len() == len(rk), "Len counts the distinct keys")
-	}
-	j := refFind(q)
-	if j >= 0 {
-		vhAssert(m.At(q) == interface{}(rv[j]), "At finds the value stored under an identical key")
-	} else {
-		vhAssert(m.At(q) == nil, "At of an absent key is nil")
-	}
-	deleted := m.Delete(q)
-	vhAssert(deleted == (j >= 0), "Delete reports whether an identical key was present")
-	if j >= 0 {
-		vhAssert(m.At(q) == nil && m.Len() == len(rk)-1, "a deleted key is gone")
-	} else {
-		vhAssert(m.Len() == len(rk), "deleting an absent key changes nothing")
-	}
-	for i := range rk {
-		if i != j {
-			vhAssert(m.At(rk[i]) == interface{}(rv[i]), "other keys keep their values")
+			rv = append(rv, v)
 		}
 	}
+	del := func(k types.Type) {
+		j := refFind(k)
+		deleted := m.Delete(k)
+		vhAssert(deleted == (j >= 0), "Delete reports whether an identical key was present")
+		if j >= 0 {
+			rk = append(rk[:j:j], rk[j+1:]...)
+			rv = append(rv[:j:j], rv[j+1:]...)
+		}
+	}
+	set(keys[0], 10)
+	set(keys[1], 11)
+	check("after two sets")
+	all := []types.Type{keys[0], keys[1], q}
+	del(all[vhPick("deleted key", 3)])
+	check("after delete")
+	set(all[vhPick("key set again", 3)], 99)
+	check("after re-set")
 	vhReach("end")
 }
 
 func VH_C28_map_array()     { vhMapOf(1) }
 func VH_C28_map_pointer()   { vhMapOf(3) }
 func VH_C28_map_chan()      { vhMapOf(5) }
-func VH_C28_map_struct()    { vhMapOf(6) }
+func VH_C28_T_map_struct()  { vhMapOf(6) }
 func VH_C28_T_map_signature() { vhMapOf(7) }
 
 func vhWide(f func()) {
@@ -286,5 +300,5 @@ func vhWide(f func()) {
 func VH_C28_T_pair_struct2()    { vhWide(func() { vhPairOf(6) }) }
 func VH_C28_T_pair_signature2() { vhWide(func() { vhPairOf(7) }) }
 func VH_C28_T_pair_interface2() { vhWide(func() { vhPairOf(8) }) }
-func VH_C28_map_interface() { vhMapOf(8) }
+func VH_C28_T_map_interface() { vhMapOf(8) }
 func VH_C28_map_leaf()      { vhMapOf(0) }
